@@ -5,6 +5,12 @@ V = os.path.dirname(os.path.dirname(os.path.abspath(__file__)))
 ALL = ["C%02d" % i for i in range(1, 21)]
 
 CLAIMED = {
+ "C16": dict(
+   level="exploration",
+   text="Generated send/cancel programs (1-3 phases x 1-6 steps, phases started by the host 0-210 ms apart) in a sender session, optionally a second sender re-using the first one's send ids, against a receiver session: <send> with delays 10-400 ms in all unit spellings incl. fractions and long delays (1m..1d), via delay / delayexpr literal / delayexpr variable, ids none / unique / shared by two pending sends / idlocation, target other session or own queue, a <param> whose variable is changed after the send; <cancel> by sendid / sendidexpr; optional termination of the sender between phases; rfsm-expression and ECMAScript senders; optional lock jitter. Every send and cancel is bracketed by time-stamped marks; time-robust invariants: never early, never twice, payload from send time, cancelled-in-time never delivered, every other id and the other session's equal id delivered, due-time order, nothing from a terminated sender after its end.",
+   design="6/C16",
+   note="Timing uncertainty is handled by margins (8 ms cancel, 40 ms termination, 3/40 ms order); sends or cancels that fall inside a margin are not judged (class unjudged_send counts them). Timer/session thread interleavings are sampled, not enumerated.",
+   technique="property-based testing: generated send/cancel/terminate programs + time-stamped history invariants (not-early, exactly-once, cancel isolation, due order)"),
  "C17": dict(
    level="exploration",
    text="Scenarios of 2-4 initial plus concurrently started sessions of one executor, driven by 2-6 host threads with 4-31 operations each (start session, cross-session send immediately / delayed, invoke inline child of four kinds with optional autoforward, leave the invoking state, send to child, FsmExecutor::send_to_session, cancel) and an optional final FsmExecutor::shutdown racing with sending sessions. The instrumented mutex of the Verif_Hooks feature records per thread which lock classes are requested while which are held, detects wait-for cycles at blocking time (owner/waiter tables), injects seeded jitter and holds threads between generated (held class, requested class) pairs (steering). Oracle: every host thread finishes and every session thread ends after cancel; a recorded wait-for cycle is the proof of a deadlock.",
